@@ -442,7 +442,7 @@ def rule_facade(ctx: Ctx):
         rep.check(is_local and loop_holder.count(".") >= 1, "C05.facade", rs.loc(),
                   "the fallback event loop lives in a threading.local (one loop per thread, usable from threads without a loop)",
                   rs.key, f"{loop_holder}  # {root} = {show(val) if val is not None else '?'}")
-        created = [n for n in own_nodes(rs.node) if isinstance(n, ast.Call) and show(n.func) in ("asyncio.new_event_loop", "new_event_loop")]
+        created = [e for p in ctx.paths(rs, exc_edges="try") for e in p.calls() if show(e.term.func) in ("asyncio.new_event_loop", "new_event_loop")]
         rep.check(bool(created), "C05.facade", rs.loc(), "a fresh loop is created for a thread that has none", rs.key, "no new_event_loop()")
 
 
